@@ -6,7 +6,8 @@ variable {T V E : Type}
 /-- a thread the scheduler skips and keeps: cannot run and is not finished -/
 def Thread.stuck (t : Thread T E) : Bool := !t.canRun && !t.done
 
-/-- no finished thread is waiting in a queue (`finish_thread_turn` never enqueues one) -/
+/-- no thread that is released at the end of its turn (finished; a task stopped by an error, fix 39422dd) is waiting
+    in a queue (`finish_thread_turn` never enqueues one) -/
 def NoDone (r : Runtime T V E) : Prop :=
   (∀ t ∈ r.runQueue, t.gone = false) ∧ (∀ t ∈ r.newThreads, t.gone = false)
 
@@ -53,7 +54,7 @@ theorem drainAux_newThreads (ts : List (Thread T E)) (r : Runtime T V E)
 theorem drain_newThreads (r : Runtime T V E) (h : (drainNewThreads r).2 = false) :
     (drainNewThreads r).1.newThreads = [] := drainAux_newThreads _ _ h
 
-/-- `finish_thread_turn` never puts a finished thread into the run queue -/
+/-- `finish_thread_turn` never puts a finished thread or a failed task into the run queue -/
 theorem ftt_noDone (r : Runtime T V E) (th : Thread T E) (h : ∀ t ∈ r.runQueue, t.gone = false) :
     ∀ t ∈ (finishThreadTurn r th).1.runQueue, t.gone = false := by
   unfold finishThreadTurn
